@@ -4,6 +4,7 @@ CONSTANTS
   AlphaSel = "full"
   MaxOps = 4
   MaxGhost = 1
+  ExtendOn = TRUE
   Emit = TRUE
 VIEW View
 ACTION_CONSTRAINT EmitEdge
